@@ -73,6 +73,17 @@ def copyFromReader (n : Nat) (r : Run) : Run :=
   if k == 0 then r
   else { r with dst := exec r.dst (.wr bytes), src := exec r.src (.rd k) }
 
+/-- `k = this.helper!(dst: args.dst, src: args.src)`: wuffs-c saves both `iop`s into the callers'
+buffer structs (`writeSaveExprDerivedVars`), the private helper loads its own derived pointers from those
+structs, copies up to 2 bytes (`limited_copy_u32_from_reader`), saves, returns, and the caller reloads
+both `iop`s (`writeLoadExprDerivedVars`); `io0 io1 io2` of the caller are not reloaded. -/
+def helperCall (r : Run) : Run :=
+  let sb := saveForCall r.src
+  let db := saveForCall r.dst
+  let inner := copyFromReader 2 { r with src := load false sb, dst := load true db }
+  { r with src := loadAfterCall r.src (finalSave inner.src),
+           dst := loadAfterCall r.dst (finalSave inner.dst) }
+
 /-- One bytecode operation (after `op = args.prog[this.pc]; this.pc += 1`). -/
 def stepOp (op : Nat) (r : Run) : Run × Option Exit :=
   match op with
@@ -99,6 +110,11 @@ def stepOp (op : Nat) (r : Run) : Run × Option Exit :=
     let r2 := copyFromReader 8 r1
     ({ r2 with dst := exec r2.dst .limitEnd }, none)
   | 14 => (copyFromReader 3 r, none)
+  | 15 => (helperCall r, none)
+  | 16 =>
+    let r1 := { r with src := exec r.src (.limitBegin 1) }
+    let r2 := helperCall r1
+    ({ r2 with src := exec r2.src .limitEnd }, none)
   | _ => (r, none)
 
 /-- `while true { if this.pc >= args.prog.length() { break } … }`. -/
